@@ -16,7 +16,7 @@ func genConfig(t *rapid.T) fcase {
 	c.Gzip = rapid.Bool().Draw(t, "gzip")
 	c.Close = rapid.Bool().Draw(t, "close")
 
-	if evid.Thorough() && rapid.IntRange(0, 119).Draw(t, "huge") == 0 {
+	if evid.Thorough() && rapid.IntRange(0, 119).Draw(t, "huge") == 77 {
 		// > 1 MiB of text: the gzip writer emits whole blocks before Close
 		c.Sizes = []int{30, 30, 30, 30}
 		c.SeqLen = 10000
